@@ -266,9 +266,10 @@ def run(ctx):
         # rows are counted per shard; the floor is on the merged count
         pass
     # ---- part 2: random multigraphs ---------------------------------------
-    ngraphs = 250 if ctx.tier == "quick" else 2500
+    ngraphs = ctx.n(250 if ctx.tier == "quick" else 2500)
     for n in range(ngraphs):
-        spec = graphs.rand_spec(rng, nmax=6, mmax=12, uni_mode="none", ecls=graphs.ECLS_X)
+        spec = graphs.rand_spec(rng, nmax=6, mmax=12, uni_mode="none", ecls=graphs.ECLS_X,
+                                vcls=graphs.VCLS_MIX + ["RankedVertex", "RankedVertex"])
         g = graphs.build(spec)
         if n < 2:
             ctx.sample({"spec": spec, "checked": "every vertex x 3 directions x 3 unknown modes x 7 filters + corollary"})
@@ -283,7 +284,7 @@ def run(ctx):
             for fname in EDGE_ONLY_FILTERS:
                 corollary(ctx, g, uname, fname)
     # ---- part 3: the table after in-place edits on warm caches ---------------
-    for n in range(300 if ctx.tier == "quick" else 1500):
+    for n in range(ctx.n(300 if ctx.tier == "quick" else 1500)):
         spec = graphs.rand_spec(rng, nmax=5, mmax=8, uni_mode="none", ecls=graphs.ECLS_ALL, self_p=0.25)
         if not spec["edges"]:
             continue
